@@ -23,7 +23,10 @@ Conventions
 * Every step of a handler is numbered as in the Standard.  `a >> 6k` is written
   `a / 64^k`, `a & 0x3F` is `a % 64` and `0x80 | t` (t < 0x40) is `0x80 + t`.
 * "index pointer" is a plain linear search for the FIRST pointer
-  (`Array.idxOf?`); nothing here is optimised.
+  (`firstPointerFrom`); nothing here is optimised.  Every table-driven handler `h` is written
+  as `hWith ptr` where `ptr` is the pointer search of its "Let pointer be …" step, and
+  `h := hWith (the Standard's search)`; the only purpose is that the complete evaluations of
+  `Lemmas/ConformEnc*.lean` can substitute a checked inverse table for the linear search.
 
 This file is the trusted reading of the Standard for property C03.
 -/
@@ -32,10 +35,17 @@ open EncodingRs.Spec
 
 /-! ## 5. Indexes -/
 
+/-- the first pointer `q ≥ pointer` (among the next `n` pointers) whose entry is `codePoint` -/
+def firstPointerFrom (index : Array Nat) (codePoint : Nat) : Nat → Nat → Option Nat
+  | _, 0 => none
+  | pointer, n + 1 =>
+    if index.getD pointer 0 = codePoint then some pointer
+    else firstPointerFrom index codePoint (pointer + 1) n
+
 /-- "The index pointer for code point in index is the first pointer corresponding
 to code point in index, or null if code point is not in index." -/
 def indexPointer (index : Array Nat) (codePoint : Nat) : Option Nat :=
-  if codePoint = 0 then none else index.idxOf? codePoint
+  if codePoint = 0 then none else firstPointerFrom index codePoint 0 index.size
 
 /-- "The index code point for pointer in index is the code point corresponding to
 pointer in index, or null if pointer is not in index." -/
@@ -45,10 +55,16 @@ def indexCodePoint (index : Array Nat) (pointer : Nat) : Option Nat :=
   | some c => some c
   | none => none
 
+/-- the last pointer below `pointer` whose entry is `codePoint` -/
+def lastPointerBelow (index : Array Nat) (codePoint : Nat) : Nat → Option Nat
+  | 0 => none
+  | pointer + 1 =>
+    if index.getD pointer 0 = codePoint then some pointer
+    else lastPointerBelow index codePoint pointer
+
 /-- the last pointer corresponding to code point in index, or null -/
 def indexLastPointer (index : Array Nat) (codePoint : Nat) : Option Nat :=
-  if codePoint = 0 then none else
-  (List.idxOf? codePoint index.toList.reverse).map fun i => index.size - 1 - i
+  if codePoint = 0 then none else lastPointerBelow index codePoint index.size
 
 /-- an index "excluding all entries whose pointer" satisfies `excluded` -/
 def excluding (index : Array Nat) (excluded : Nat → Bool) : Array Nat :=
@@ -104,16 +120,19 @@ deriving DecidableEq, Repr
 
 def isAsciiCodePoint (c : Nat) : Bool := c ≤ 0x7F
 
-/-- 9.1 single-byte encoder (`index` = index single-byte of the encoding) -/
-def singleByte (index : Array Nat) (codePoint : Nat) : Result :=
+/-- 9.1 single-byte encoder; `ptr codePoint` = "the index pointer for code point in index single-byte" -/
+def singleByteWith (ptr : Nat → Option Nat) (codePoint : Nat) : Result :=
   -- 2. If code point is an ASCII code point, return a byte whose value is code point.
   if isAsciiCodePoint codePoint then .bytes [codePoint] else
   -- 3. Let pointer be the index pointer for code point in index single-byte.
-  match indexPointer index codePoint with
+  match ptr codePoint with
   -- 4. If pointer is null, return error with code point.
   | none => .error codePoint
   -- 5. Return a byte whose value is pointer + 0x80.
   | some pointer => .bytes [pointer + 0x80]
+
+/-- 9.1 single-byte encoder (`index` = index single-byte of the encoding) -/
+def singleByte (index : Array Nat) (codePoint : Nat) : Result := singleByteWith (indexPointer index) codePoint
 
 /-- 8.1.2 UTF-8 encoder, step 5: "While count is greater than 0" -/
 def utf8Trail (codePoint : Nat) : Nat → List Nat
@@ -135,12 +154,13 @@ def utf8 (codePoint : Nat) : Result :=
 
 /-- the table of step 5 of the gb18030 encoder -/
 def gb180302022Row (codePoint : Nat) : Option (Nat × Nat) :=
-  (Enc.gb180302022CodePoints.idxOf? codePoint).map fun i =>
+  (indexPointer Enc.gb180302022CodePoints codePoint).map fun i =>
     let pair := Enc.gb180302022Bytes.getD i 0
     (pair / 256, pair % 256)
 
-/-- 10.2.2 gb18030 encoder (`isGBK` set: 10.1.2 GBK encoder) -/
-def gb18030 (isGBK : Bool) (codePoint : Nat) : Result :=
+/-- 10.2.2 gb18030 encoder (`isGBK` set: 10.1.2 GBK encoder); `ptr codePoint` = "the index pointer
+for code point in index gb18030" -/
+def gb18030With (ptr : Nat → Option Nat) (isGBK : Bool) (codePoint : Nat) : Result :=
   -- 2.
   if isAsciiCodePoint codePoint then .bytes [codePoint] else
   -- 3. If code point is U+E5E5, return error with code point.
@@ -152,7 +172,7 @@ def gb18030 (isGBK : Bool) (codePoint : Nat) : Result :=
   | some (b1, b2) => .bytes [b1, b2]
   | none =>
   -- 6. Let pointer be the index pointer for code point in index gb18030.
-  match indexPointer indexGb18030 codePoint with
+  match ptr codePoint with
   -- 7. If pointer is non-null:
   | some pointer =>
     let lead := pointer / 190 + 0x81
@@ -173,11 +193,14 @@ def gb18030 (isGBK : Bool) (codePoint : Nat) : Result :=
   let byte4 := pointer % 10
   .bytes [byte1 + 0x81, byte2 + 0x30, byte3 + 0x81, byte4 + 0x30]
 
-/-- 11.1.2 Big5 encoder -/
-def big5 (codePoint : Nat) : Result :=
+/-- 10.2.2 gb18030 encoder (`isGBK` set: 10.1.2 GBK encoder) -/
+def gb18030 (isGBK : Bool) (codePoint : Nat) : Result := gb18030With (indexPointer indexGb18030) isGBK codePoint
+
+/-- 11.1.2 Big5 encoder; `ptr codePoint` = "the index Big5 pointer for code point" -/
+def big5With (ptr : Nat → Option Nat) (codePoint : Nat) : Result :=
   if isAsciiCodePoint codePoint then .bytes [codePoint] else
   -- 3. Let pointer be the index Big5 pointer for code point.
-  match indexBig5Pointer codePoint with
+  match ptr codePoint with
   -- 4.
   | none => .error codePoint
   | some pointer =>
@@ -188,18 +211,24 @@ def big5 (codePoint : Nat) : Result :=
     let offset := if trail < 0x3F then 0x40 else 0x62
     .bytes [lead, trail + offset]
 
-/-- 13.1.2 EUC-KR encoder -/
-def eucKr (codePoint : Nat) : Result :=
+/-- 11.1.2 Big5 encoder -/
+def big5 (codePoint : Nat) : Result := big5With indexBig5Pointer codePoint
+
+/-- 13.1.2 EUC-KR encoder; `ptr codePoint` = "the index pointer for code point in index EUC-KR" -/
+def eucKrWith (ptr : Nat → Option Nat) (codePoint : Nat) : Result :=
   if isAsciiCodePoint codePoint then .bytes [codePoint] else
-  match indexPointer indexEucKr codePoint with
+  match ptr codePoint with
   | none => .error codePoint
   | some pointer =>
     let lead := pointer / 190 + 0x81
     let trail := pointer % 190 + 0x41
     .bytes [lead, trail]
 
-/-- 12.1.2 EUC-JP encoder -/
-def eucJp (codePoint : Nat) : Result :=
+/-- 13.1.2 EUC-KR encoder -/
+def eucKr (codePoint : Nat) : Result := eucKrWith (indexPointer indexEucKr) codePoint
+
+/-- 12.1.2 EUC-JP encoder; `ptr codePoint` = "the index pointer for code point in index jis0208" -/
+def eucJpWith (ptr : Nat → Option Nat) (codePoint : Nat) : Result :=
   -- 2.
   if isAsciiCodePoint codePoint then .bytes [codePoint] else
   -- 3. U+00A5 ↦ 0x5C   4. U+203E ↦ 0x7E
@@ -210,15 +239,18 @@ def eucJp (codePoint : Nat) : Result :=
   -- 6. If code point is U+2212, set it to U+FF0D.
   let codePoint := if codePoint = 0x2212 then 0xFF0D else codePoint
   -- 7. Let pointer be the index pointer for code point in index jis0208.
-  match indexPointer Enc.indexJis0208Full codePoint with
+  match ptr codePoint with
   -- 8.
   | none => .error codePoint
   | some pointer =>
     -- 9. lead = pointer / 94 + 0xA1   10. trail = pointer % 94 + 0xA1
     .bytes [pointer / 94 + 0xA1, pointer % 94 + 0xA1]
 
-/-- 12.3.2 Shift_JIS encoder -/
-def shiftJis (codePoint : Nat) : Result :=
+/-- 12.1.2 EUC-JP encoder -/
+def eucJp (codePoint : Nat) : Result := eucJpWith (indexPointer Enc.indexJis0208Full) codePoint
+
+/-- 12.3.2 Shift_JIS encoder; `ptr codePoint` = "the index Shift_JIS pointer for code point" -/
+def shiftJisWith (ptr : Nat → Option Nat) (codePoint : Nat) : Result :=
   -- 2. If code point is an ASCII code point or U+0080, return a byte whose value is code point.
   if isAsciiCodePoint codePoint ∨ codePoint = 0x80 then .bytes [codePoint] else
   -- 3. 4.
@@ -229,7 +261,7 @@ def shiftJis (codePoint : Nat) : Result :=
   -- 6.
   let codePoint := if codePoint = 0x2212 then 0xFF0D else codePoint
   -- 7. Let pointer be the index Shift_JIS pointer for code point.
-  match indexShiftJisPointer codePoint with
+  match ptr codePoint with
   | none => .error codePoint
   | some pointer =>
     -- 9.-12.
@@ -238,6 +270,9 @@ def shiftJis (codePoint : Nat) : Result :=
     let trail := pointer % 188
     let offset := if trail < 0x3F then 0x40 else 0x41
     .bytes [lead + leadOffset, trail + offset]
+
+/-- 12.3.2 Shift_JIS encoder -/
+def shiftJis (codePoint : Nat) : Result := shiftJisWith indexShiftJisPointer codePoint
 
 /-- 14.5.2 x-user-defined encoder -/
 def userDefined (codePoint : Nat) : Result :=
@@ -281,8 +316,8 @@ def stateless (h : Nat → Result) : Encoder where
 inductive IsoState | ascii | roman | jis0208
 deriving DecidableEq, Repr
 
-/-- 12.2.2 ISO-2022-JP encoder -/
-def iso2022JpHandler (state : IsoState) (item : Option Nat) : HStep IsoState :=
+/-- 12.2.2 ISO-2022-JP encoder; `ptr codePoint` = "the index pointer for code point in index jis0208" -/
+def iso2022JpHandlerWith (ptr : Nat → Option Nat) (state : IsoState) (item : Option Nat) : HStep IsoState :=
   match item with
   | none =>
     -- 1. end-of-queue and state is not ASCII: set state to ASCII, return 0x1B 0x28 0x42.
@@ -319,7 +354,7 @@ def iso2022JpHandler (state : IsoState) (item : Option Nat) : HStep IsoState :=
       (indexCodePoint Enc.indexIso2022JpKatakana (codePoint' - 0xFF61)).getD 0
     else codePoint'
   -- 10. Let pointer be the index pointer for code point in index jis0208.
-  match indexPointer Enc.indexJis0208Full codePoint' with
+  match ptr codePoint' with
   -- 11. If pointer is null:
   | none =>
     -- 11.1 If state is jis0208, restore code point to ioQueue, set state to ASCII, return 0x1B 0x28 0x42.
@@ -332,6 +367,10 @@ def iso2022JpHandler (state : IsoState) (item : Option Nat) : HStep IsoState :=
     -- 13. lead = pointer / 94 + 0x21   14. trail = pointer % 94 + 0x21   15. return two bytes
     ⟨state, none, .bytes [pointer / 94 + 0x21, pointer % 94 + 0x21]⟩
 
+/-- 12.2.2 ISO-2022-JP encoder -/
+def iso2022JpHandler (state : IsoState) (item : Option Nat) : HStep IsoState :=
+  iso2022JpHandlerWith (indexPointer Enc.indexJis0208Full) state item
+
 def iso2022Jp : Encoder := ⟨IsoState, .ascii, iso2022JpHandler⟩
 
 /-! ### 4.2 names: "get an output encoding", "get an encoder" -/
@@ -341,20 +380,25 @@ UTF-16BE/LE, then return UTF-8.  2. Return encoding." (by name) -/
 def outputEncodingName (name : String) : String :=
   if name = "replacement" ∨ name = "UTF-16BE" ∨ name = "UTF-16LE" then "UTF-8" else name
 
-/-- the encoder of an encoding, by the Standard's name of the encoding; `none` for the three
-encodings that have no encoder (and for names that are not names of encodings) -/
+/-- the encoder of an encoding, by the Standard's name of the encoding: the single-byte encoder
+over the encoding's index for the legacy single-byte encodings, the encoder of its section
+otherwise; `none` for the three encodings that have no encoder (replacement, UTF-16BE/LE) and for
+strings that are not names of encodings -/
 def encoderOfName (name : String) : Option Encoder :=
-  match name with
-  | "UTF-8" => some (stateless utf8)
-  | "GBK" => some (stateless (gb18030 true))
-  | "gb18030" => some (stateless (gb18030 false))
-  | "Big5" => some (stateless big5)
-  | "EUC-JP" => some (stateless eucJp)
-  | "ISO-2022-JP" => some iso2022Jp
-  | "Shift_JIS" => some (stateless shiftJis)
-  | "EUC-KR" => some (stateless eucKr)
-  | "x-user-defined" => some (stateless userDefined)
-  | _ => (Enc.singleByteIndexes.lookup name).map fun index => stateless (singleByte index)
+  match Enc.singleByteIndexes.lookup name with
+  | some index => some (stateless (singleByte index))
+  | none =>
+    match name with
+    | "UTF-8" => some (stateless utf8)
+    | "GBK" => some (stateless (gb18030 true))
+    | "gb18030" => some (stateless (gb18030 false))
+    | "Big5" => some (stateless big5)
+    | "EUC-JP" => some (stateless eucJp)
+    | "ISO-2022-JP" => some iso2022Jp
+    | "Shift_JIS" => some (stateless shiftJis)
+    | "EUC-KR" => some (stateless eucKr)
+    | "x-user-defined" => some (stateless userDefined)
+    | _ => none
 
 /-! ## 4.1 "process a queue" -/
 
